@@ -28,7 +28,9 @@ type shTask struct {
 	tmpl    string
 }
 
-var tmplIDs = []string{"T", "U"}
+// "T" is a proper prefix of "T2": the association keys of a template are found by a prefix scan
+// (/templates/tasks/<id>/), which must not reach the associations of a longer-named template.
+var tmplIDs = []string{"T", "T2", "U"}
 var plainOK = []string{"s0", "s1", "sd", "se", "t0", "td", "b0", "b1"}
 var plainBad = []string{"sx", "si", "sn", "t1"}
 var tmplScripts = []string{"t0", "t1", "td", "s0", "sd", "b0", "b1"}
@@ -127,6 +129,23 @@ func genCase(r *kit.Rand, idx int, tier string) []string {
 			return " st=d"
 		}
 		return ""
+	}
+	// every fourth case starts with two templates whose IDs are prefix-related and a task created from the
+	// LONGER-named one; the history then updates / renames / deletes the shorter-named one (and vice versa)
+	if idx%4 == 3 {
+		sc := kit.Pick(r, []string{"t0", "s0"})
+		st := kit.Pick(r, []string{" st=e", ""})
+		id := kit.Pick(r, taskIDs)
+		ops = append(ops, "tcreate T s="+sc, "list", "tcreate T2 s="+sc, "list", "create "+id+" tm=T2 d=db.rp"+st, "list")
+		sh.tmpl["T"], sh.tmpl["T2"] = sc, sc
+		sh.task[id] = &shTask{enabled: st == " st=e", tmpl: "T2"}
+		switch r.Intn(3) {
+		case 0:
+			ops = append(ops, "tupdate T s=td", "list")
+		case 1:
+			ops = append(ops, "tdelete T", "list", "tupdate T2 s=td", "list")
+			delete(sh.tmpl, "T")
+		}
 	}
 	explicitDBRPs := []string{"db.rp", "db.rp,db2.rp2", "x.y"}
 	if withBatch {
@@ -273,7 +292,7 @@ func genCase(r *kit.Rand, idx int, tier string) []string {
 			op := "tupdate " + id
 			nid := ""
 			if r.Chance(1, 4) {
-				nid = kit.Pick(r, []string{"T", "U", "V"})
+				nid = kit.Pick(r, []string{"T", "T2", "U", "V"})
 				op += " id=" + nid
 			}
 			if r.Chance(5, 6) || nid == "" {
